@@ -544,4 +544,366 @@ theorem rtq_item (env : Env) (input : Str) (base : Col α) (hdm : base.defineMod
       simp only [stOfT, SItem.x, xPushM, xToItem, hsnoc, hisnoc, hpush]
       simp
 
+theorem rtq_loop_items (env : Env) (input : Str) (base : Col α) (hdm : base.defineMode = .all ∨ base.defineMode = .steps)
+    (rest : List (Ev α)) (content : List Content) (n : Nat) :
+    ∀ (st : List (SItem α)) (before : List (SItem α)) (T : XTbls α), TblsFit before T →
+      (∀ it ∈ st, it.SideOKM env base.defineMode) →
+      yItemsOKB env base.defineMode base.duplicateMode content base.sections.length T (st.map (SItem.x env)) = true →
+      ∀ (items : List Item),
+      parseEventsLoop env input (st.map SItem.ev ++ rest) (stOfT base before T content n (some (.step items))) =
+        parseEventsLoop env input rest
+          (stOfT base (before ++ st)
+            (yStepTbls env base.defineMode base.duplicateMode content base.sections.length T (st.map (SItem.x env))) content n
+            (some (.step (items ++
+              yItems env base.defineMode base.duplicateMode content base.sections.length T (st.map (SItem.x env)))))) ∧
+      TblsFit (before ++ st)
+        (yStepTbls env base.defineMode base.duplicateMode content base.sections.length T (st.map (SItem.x env))) := by
+  intro st
+  induction st with
+  | nil => intro before T hfit _ _ items; simp [yItems, yStepTbls, hfit]
+  | cons it r ih =>
+    intro before T hfit hside hs items
+    simp only [List.map_cons, yItemsOKB, Bool.and_eq_true] at hs
+    obtain ⟨i1, i2⟩ := ih (before ++ [it])
+      (xPushM env base.defineMode base.duplicateMode content base.sections.length T (it.x env))
+      (rtq_fit_push env _ _ content base.sections.length before T hfit it) (fun x hx => hside x (by simp [hx])) hs.2
+      (items ++ [xToItem T (it.x env)])
+    refine ⟨?_, by simpa [yStepTbls, List.append_assoc] using i2⟩
+    rw [List.map_cons, List.cons_append, parseEventsLoop_cons_nonerror env input _ _ _ (rta_ev_not_error it),
+      rtq_item env input base hdm it before T hfit content n (hside it (by simp)) hs.1, i1]
+    simp [yItems, yStepTbls, List.append_assoc]
+
+theorem rtq_start (env : Env) (input : Str) (base : Col α) (hdm : base.defineMode = .all ∨ base.defineMode = .steps)
+    (before : List (SItem α)) (T : XTbls α) (content : List Content) (n : Nat) :
+    (processEvent env input (.start .step) (stOfT base before T content n none)).2 =
+      stOfT base before T content n (some (.step [])) := by
+  rcases hdm with h | h <;>
+    simp [processEvent, modify, modifyGet, MonadStateOf.modifyGet, StateT.modifyGet, stOfT, pure, StateT.pure, h]
+
+theorem rtq_stop (env : Env) (input : Str) (base : Col α) (hdm : base.defineMode = .all ∨ base.defineMode = .steps)
+    (before : List (SItem α)) (T : XTbls α) (content : List Content) (n : Nat) (items : List Item) (hne : items ≠ []) :
+    (processEvent env input (.stop .step) (stOfT base before T content n (some (.step items)))).2 =
+      stOfT base before T (content ++ [.step ⟨items, n⟩]) (n + 1) none := by
+  have hne' : items.isEmpty = false := by cases items <;> simp_all
+  rcases hdm with h | h <;>
+    simp [processEvent, endBlock, endBlockContent, pushContent, Content.isStep, Content.isEmptyContent, hne', bind,
+      StateT.bind, get, getThe, MonadStateOf.get, StateT.get, pure, StateT.pure, modify, modifyGet,
+      MonadStateOf.modifyGet, StateT.modifyGet, stOfT, h]
+
+theorem rtq_yItems_ne (env : Env) (dm : DefineMode) (dup : DuplicateMode) (content : List Content) (nsec : Nat)
+    (T : XTbls α) (st : List (XItem α)) (h : st ≠ []) : yItems env dm dup content nsec T st ≠ [] := by
+  cases st with
+  | nil => exact absurd rfl h
+  | cons a r => simp [yItems]
+
+/-- one step block in define mode `all` or `steps` -/
+theorem rtq_loop_step (env : Env) (input : Str) (base : Col α) (hdm : base.defineMode = .all ∨ base.defineMode = .steps)
+    (rest : List (Ev α)) (st : List (SItem α)) (before : List (SItem α)) (T : XTbls α) (hfit : TblsFit before T)
+    (hside : ∀ it ∈ st, it.SideOKM env base.defineMode) (content : List Content) (n : Nat)
+    (hs : yItemsOKB env base.defineMode base.duplicateMode content base.sections.length T (st.map (SItem.x env)) = true)
+    (hne : st ≠ []) :
+    parseEventsLoop env input (stepEvents st ++ rest) (stOfT base before T content n none) =
+      parseEventsLoop env input rest
+        (stOfT base (before ++ st)
+          (yStepTbls env base.defineMode base.duplicateMode content base.sections.length T (st.map (SItem.x env)))
+          (content ++ [.step ⟨yItems env base.defineMode base.duplicateMode content base.sections.length T
+            (st.map (SItem.x env)), n⟩]) (n + 1) none) ∧
+    TblsFit (before ++ st)
+      (yStepTbls env base.defineMode base.duplicateMode content base.sections.length T (st.map (SItem.x env))) := by
+  have e : stepEvents st ++ rest = Ev.start .step :: (st.map SItem.ev ++ (Ev.stop .step :: rest)) := by
+    simp [stepEvents]
+  obtain ⟨i1, i2⟩ := rtq_loop_items env input base hdm (Ev.stop .step :: rest) content n st before T hfit hside hs []
+  refine ⟨?_, i2⟩
+  have hne' : st.map (SItem.x env) ≠ [] := by simpa using hne
+  rw [e, parseEventsLoop_cons_nonerror env input _ _ _ (by rintro ⟨d, h⟩; cases h), rtq_start env input base hdm, i1,
+    parseEventsLoop_cons_nonerror env input _ _ _ (by rintro ⟨d, h⟩; cases h), List.nil_append,
+    rtq_stop env input base hdm _ _ content n _ (rtq_yItems_ne env _ _ content _ T _ hne')]
+
+/-- the pieces of a step made of texts only -/
+theorem rtq_text_pieces (env : Env) (input : Str) : ∀ (st : List (SItem α)),
+    (st.map (SItem.x env)).all XItem.isText = true →
+    ∃ pieces : List Str, st.map (textModePiece input) = pieces.map some ∧
+      pieces.flatten = xTexts (st.map (SItem.x env)) ∧ st.flatMap textModeWarn = [] := by
+  intro st
+  induction st with
+  | nil => intro _; exact ⟨[], rfl, rfl, rfl⟩
+  | cons it r ih =>
+    intro h
+    simp only [List.map_cons, List.all_cons, Bool.and_eq_true] at h
+    obtain ⟨ps, h1, h2, h3⟩ := ih h.2
+    cases it with
+    | text t =>
+      refine ⟨t.text :: ps, by simp [textModePiece, h1], ?_, by simp [textModeWarn, h3]⟩
+      simp [SItem.x, xTexts, h2]
+    | ingredient i => simp [SItem.x, XItem.isText] at h
+    | cookware c => simp [SItem.x, XItem.isText] at h
+    | timer t => simp [SItem.x, XItem.isText] at h
+
+/-- one step block in text mode, texts only: a text paragraph, nothing else -/
+theorem rtq_loop_step_text (env : Env) (input : Str) (base : Col α) (hdm : base.defineMode = .text)
+    (rest : List (Ev α)) (st : List (SItem α)) (before : List (SItem α)) (T : XTbls α) (content : List Content) (n : Nat)
+    (hs : (st.map (SItem.x env)).all XItem.isText = true) :
+    parseEventsLoop env input (stepEvents st ++ rest) (stOfT base before T content n none) =
+      parseEventsLoop env input rest
+        (stOfT base before T (content ++ xParaContent (xTexts (st.map (SItem.x env)))) n none) := by
+  obtain ⟨pieces, h1, h2, h3⟩ := rtq_text_pieces env input st hs
+  have e : stepEvents st ++ rest = [Ev.start .step] ++ st.map SItem.ev ++ [Ev.stop .step] ++ rest := by
+    simp [stepEvents]
+  rw [e, rtn_text_block env input rest .step st pieces (stOfT base before T content n none) hdm h1, h2, h3]
+  congr 1 <;> simp [stOfT]
+
+/-- one step block in components mode (from `rtm_loop_steps`) -/
+theorem rtq_loop_step_comps (env : Env) (input : Str) (base : Col α) (hb : CompBase base)
+    (rest : List (Ev α)) (st : List (SItem α)) (before : List (SItem α)) (T : XTbls α) (hfit : TblsFit before T)
+    (content : List Content) (n : Nat) (hs : ∀ it ∈ st, it.CompOK env) :
+    parseEventsLoop env input (stepEvents st ++ rest) (stOfT base before T content n none) =
+      parseEventsLoop env input rest (stOfT base (before ++ st) (xCTbls T (st.map (SItem.x env))) content n none) ∧
+    TblsFit (before ++ st) (xCTbls T (st.map (SItem.x env))) := by
+  have := rtm_loop_steps env input base hb rest content n [st] before T hfit
+    (by intro s hs' it hit; simp only [List.mem_cons, List.not_mem_nil, or_false] at hs'; subst hs'; exact hs it hit)
+  simpa using this
+
+/-- the side conditions of components mode, from the mode-aware ones and the described items -/
+theorem rtq_compOK (env : Env) (it : SItem α) (hside : it.SideOKM env .components)
+    (h : compXOKB env (it.x env) = true) : it.CompOK env := by
+  cases it with
+  | text t => simpa [SItem.x, compXOKB, SItem.CompOK] using h
+  | ingredient li =>
+    simp only [SItem.x, compXOKB, Bool.and_eq_true, decide_eq_true_eq, Option.isNone_iff_eq_none, Option.map_eq_none_iff] at h
+    exact ⟨h.1, h.2, hside⟩
+  | cookware lc =>
+    simp only [SItem.x, compXOKB, decide_eq_true_eq] at h
+    exact ⟨h, hside⟩
+  | timer lt => exact hside
+
+/-- a text paragraph, in every mode -/
+theorem rtq_para (env : Env) (input : Str) (base : Col α) (rest : List (Ev α)) (ts : List Text)
+    (before : List (SItem α)) (T : XTbls α) (content : List Content) (n : Nat) :
+    parseEventsLoop env input (([Ev.start .text] ++ ts.map Ev.text ++ [Ev.stop .text]) ++ rest)
+        (stOfT base before T content n none) =
+      parseEventsLoop env input rest (stOfT base before T (content ++ xParaContent (ts.flatMap (·.text))) n none) := by
+  have e : ([Ev.start .text] ++ ts.map Ev.text ++ [Ev.stop .text]) ++ rest =
+      Ev.start .text :: (ts.map Ev.text ++ (Ev.stop .text :: rest)) := by simp
+  have hstart : (processEvent env input (.start .text) (stOfT base before T content n none)).2 =
+      stOfT base before T content n (some (.text [])) := by
+    cases hdm : base.defineMode <;>
+      simp [processEvent, modify, modifyGet, MonadStateOf.modifyGet, StateT.modifyGet, stOfT, pure, StateT.pure, hdm]
+  have hstop : ∀ buf, (processEvent env input (.stop .text) (stOfT base before T content n (some (.text buf)))).2 =
+      stOfT base before T (content ++ (if buf.isEmpty then [] else [.text buf])) n none := by
+    intro buf
+    cases hdm : base.defineMode <;> by_cases hbuf : buf.isEmpty = true <;>
+      simp [processEvent, endBlock, endBlockContent, pushContent, Content.isStep, Content.isEmptyContent, hbuf, bind,
+        StateT.bind, get, getThe, MonadStateOf.get, StateT.get, pure, StateT.pure, modify, modifyGet,
+        MonadStateOf.modifyGet, StateT.modifyGet, stOfT, hdm]
+  rw [e, parseEventsLoop_cons_nonerror env input _ _ _ (by rintro ⟨d, h⟩; cases h), hstart,
+    rtax_para_texts env input base _ before T content n ts [],
+    parseEventsLoop_cons_nonerror env input _ _ _ (by rintro ⟨d, h⟩; cases h), hstop]
+  simp [xParaContent]
+
+/-! ### the whole document -/
+
+structure DocResultN (env : Env) (dm : DefineMode) (dup : DuplicateMode) (base : Col α) (T : XTbls α)
+    (content : List Content) (n : Nat) (ys : List (YBlock α)) (es : List (Text × Text)) (c : Col α) : Prop where
+  sections : c.sections = (yRun env dm dup T base.sections ⟨base.cur.name, content⟩ n base.metaMap ys).secs
+  ingredients : c.ingredients = (yRun env dm dup T base.sections ⟨base.cur.name, content⟩ n base.metaMap ys).T.ing
+  cookware : c.cookware = (yRun env dm dup T base.sections ⟨base.cur.name, content⟩ n base.metaMap ys).T.cw
+  timers : c.timers = (yRun env dm dup T base.sections ⟨base.cur.name, content⟩ n base.metaMap ys).T.tm
+  metaMap : c.metaMap = (yRun env dm dup T base.sections ⟨base.cur.name, content⟩ n base.metaMap ys).metaMap
+  used : c.oldStyleUsed = base.oldStyleUsed ++ docSpans es
+  diags : c.diags = base.diags ++ deprecation (base.oldStyleUsed ++ docSpans es)
+  inlineQ : c.inlineQ = base.inlineQ
+  frontMatter : c.frontMatter = base.frontMatter
+
+theorem rtq_final (env : Env) (input : Str) (dm : DefineMode) (dup : DuplicateMode) (base : Col α)
+    (before : List (SItem α)) (T : XTbls α) (content : List Content) (n : Nat) :
+    ∃ c : Col α, parseEventsLoop env input [] (stOfT base before T content n none) = ⟨some c, c.diags, base.panic⟩ ∧
+      DocResultN env dm dup base T content n [] [] c := by
+  refine ⟨finalCol (stOfT base before T content n none), ?_, ?_⟩
+  · rw [rts_loop_nil]
+    congr 1
+    unfold finalCol
+    by_cases h1 : Section.isEmpty ⟨base.cur.name, content⟩ = true <;>
+      by_cases h2 : base.oldStyleUsed.isEmpty = true <;> simp [stOfT, h1, h2]
+  · unfold finalCol
+    by_cases h1 : Section.isEmpty ⟨base.cur.name, content⟩ = true <;>
+      by_cases h2 : base.oldStyleUsed.isEmpty = true <;>
+      constructor <;>
+        simp [stOfT, h1, h2, yRun, docSpans, deprecation]
+
+theorem rtq_entryEffect_modes (env : Env) (k v : Text) (base : Col α) :
+    (entryEffect env k v base).defineMode = base.defineMode ∧
+    (entryEffect env k v base).duplicateMode = base.duplicateMode := by
+  unfold entryEffect
+  cases StdKey.ofStr (String.ofList (k.trimmed env.cs)) <;> exact ⟨rfl, rfl⟩
+
+theorem rtq_loop_doc (env : Env) (input : Str) :
+    ∀ (blocks : List (NBlock α)) (dm : DefineMode) (dup : DuplicateMode) (base : Col α),
+      base.defineMode = dm → base.duplicateMode = dup → nSideOK env dm blocks →
+      ∀ (before : List (SItem α)) (T : XTbls α), TblsFit before T → ∀ (content : List Content) (n : Nat),
+      yOKB env dm dup T base.sections ⟨base.cur.name, content⟩ n (blocks.map (NBlock.y env)) = true →
+      ∃ c : Col α,
+        parseEventsLoop env input (blocks.flatMap NBlock.events) (stOfT base before T content n none) =
+          ⟨some c, c.diags, base.panic⟩ ∧
+        DocResultN env dm dup base T content n (blocks.map (NBlock.y env)) (nEntries blocks) c := by
+  intro blocks
+  induction blocks with
+  | nil =>
+    intro dm dup base _ _ _ before T _ content n _
+    exact rtq_final env input dm dup base before T content n
+  | cons nb r ih =>
+    intro dm dup base hdm hdup hside before T hfit content n hok
+    cases nb with
+    | define k v m =>
+      simp only [nSideOK] at hside
+      simp only [List.map_cons, NBlock.y, yOKB] at hok
+      have hev : (processEvent env input (.metadata k v) (stOfT base before T content n none)).2 =
+          stOfT ({ base with defineMode := m } : Col α) before T content n none := by
+        have e1 : processEvent env input (.metadata k v) (stOfT base before T content n none) =
+            metadataA env k v (stOfT base before T content n none) := rfl
+        rw [e1, rtn_defineLine env k v _ m hside.1]
+        rfl
+      obtain ⟨c, h1, h2⟩ := ih m dup ({ base with defineMode := m } : Col α) rfl hdup hside.2 before T hfit content n hok
+      refine ⟨c, ?_, ?_⟩
+      · rw [List.flatMap_cons, NBlock.events, List.singleton_append,
+          parseEventsLoop_cons_nonerror env input _ _ _ (by rintro ⟨d, h⟩; cases h), hev, h1]
+      · obtain ⟨a1, a2, a3, a4, a5, a6, a7, a8, a9⟩ := h2
+        exact ⟨by rw [a1]; rfl, by rw [a2]; rfl, by rw [a3]; rfl, by rw [a4]; rfl, by rw [a5]; rfl,
+          by rw [a6]; rfl, by rw [a7]; rfl, a8, a9⟩
+    | duplicate k v m =>
+      simp only [nSideOK] at hside
+      simp only [List.map_cons, NBlock.y, yOKB] at hok
+      have hev : (processEvent env input (.metadata k v) (stOfT base before T content n none)).2 =
+          stOfT ({ base with duplicateMode := m } : Col α) before T content n none := by
+        have e1 : processEvent env input (.metadata k v) (stOfT base before T content n none) =
+            metadataA env k v (stOfT base before T content n none) := rfl
+        rw [e1, rtn_duplicateLine env k v _ m hside.1]
+        rfl
+      obtain ⟨c, h1, h2⟩ := ih dm m ({ base with duplicateMode := m } : Col α) hdm rfl hside.2 before T hfit content n hok
+      refine ⟨c, ?_, ?_⟩
+      · rw [List.flatMap_cons, NBlock.events, List.singleton_append,
+          parseEventsLoop_cons_nonerror env input _ _ _ (by rintro ⟨d, h⟩; cases h), hev, h1]
+      · obtain ⟨a1, a2, a3, a4, a5, a6, a7, a8, a9⟩ := h2
+        exact ⟨by rw [a1]; rfl, by rw [a2]; rfl, by rw [a3]; rfl, by rw [a4]; rfl, by rw [a5]; rfl,
+          by rw [a6]; rfl, by rw [a7]; rfl, a8, a9⟩
+    | plain b =>
+      cases b with
+      | sect name =>
+        simp only [nSideOK] at hside
+        simp only [List.map_cons, NBlock.y, yOKB] at hok
+        obtain ⟨c, h1, h2⟩ := ih dm dup
+          { base with sections := base.sections ++ (if (Section.isEmpty ⟨base.cur.name, content⟩) then [] else
+                                    [⟨base.cur.name, content⟩]),
+                      cur := ⟨name.map (·.trimmed env.cs), []⟩ } hdm hdup hside before T hfit [] 1 hok
+        refine ⟨c, ?_, ?_⟩
+        · rw [List.flatMap_cons, NBlock.events, SBlock.events, List.singleton_append,
+            parseEventsLoop_cons_nonerror env input _ _ _ (by rintro ⟨d, h⟩; cases h), rtax_section, h1]
+        · obtain ⟨a1, a2, a3, a4, a5, a6, a7, a8, a9⟩ := h2
+          exact ⟨by rw [a1]; rfl, by rw [a2]; rfl, by rw [a3]; rfl, by rw [a4]; rfl, by rw [a5]; rfl,
+            by rw [a6]; rfl, by rw [a7]; rfl, a8, a9⟩
+      | para ts =>
+        simp only [nSideOK] at hside
+        simp only [List.map_cons, NBlock.y, yOKB] at hok
+        obtain ⟨c, h1, h2⟩ := ih dm dup base hdm hdup hside before T hfit (content ++ xParaContent (ts.flatMap (·.text))) n hok
+        refine ⟨c, ?_, ?_⟩
+        · rw [List.flatMap_cons, NBlock.events, SBlock.events, rtq_para env input base _ ts, h1]
+        · obtain ⟨a1, a2, a3, a4, a5, a6, a7, a8, a9⟩ := h2
+          exact ⟨by rw [a1]; rfl, by rw [a2]; rfl, by rw [a3]; rfl, by rw [a4]; rfl, by rw [a5]; rfl,
+            by rw [a6]; rfl, by rw [a7]; rfl, a8, a9⟩
+      | entry k v =>
+        simp only [nSideOK] at hside
+        simp only [List.map_cons, NBlock.y, yOKB] at hok
+        have hpanic : (entryEffect env k v base).panic = base.panic := by
+          unfold entryEffect; cases StdKey.ofStr (String.ofList (k.trimmed env.cs)) <;> rfl
+        have hsec : (entryEffect env k v base).sections = base.sections ∧ (entryEffect env k v base).cur = base.cur ∧
+            (entryEffect env k v base).metaMap = metaInsert base.metaMap (k.trimmed env.cs) (v.outerTrimmed env.cs) ∧
+            (entryEffect env k v base).oldStyleUsed = base.oldStyleUsed ++ [⟨k.span.start, v.span.stop⟩] ∧
+            (entryEffect env k v base).diags = base.diags ∧ (entryEffect env k v base).inlineQ = base.inlineQ ∧
+            (entryEffect env k v base).frontMatter = base.frontMatter := by
+          unfold entryEffect; cases StdKey.ofStr (String.ofList (k.trimmed env.cs)) <;> exact ⟨rfl, rfl, rfl, rfl, rfl, rfl, rfl⟩
+        obtain ⟨e1, e2, e3, e4, e5, e6, e7⟩ := hsec
+        obtain ⟨m1, m2⟩ := rtq_entryEffect_modes env k v base
+        obtain ⟨c, h1, h2⟩ := ih dm dup (entryEffect env k v base) (by rw [m1, hdm]) (by rw [m2, hdup]) hside.2 before T hfit
+          content n (by rw [e1, e2]; exact hok)
+        refine ⟨c, ?_, ?_⟩
+        · rw [List.flatMap_cons, NBlock.events, SBlock.events, List.singleton_append,
+            parseEventsLoop_cons_nonerror env input _ _ _ (by rintro ⟨d, h⟩; cases h), rtax_entry env input base k v hside.1, h1,
+            hpanic]
+        · obtain ⟨a1, a2, a3, a4, a5, a6, a7, a8, a9⟩ := h2
+          rw [e1, e2, e3] at a1 a2 a3 a4 a5
+          refine ⟨by rw [a1]; rfl, by rw [a2]; rfl, by rw [a3]; rfl, by rw [a4]; rfl, by rw [a5]; rfl, ?_, ?_,
+            by rw [a8, e6], by rw [a9, e7]⟩
+          · rw [a6, e4]; simp [nEntries, docSpans]
+          · rw [a7, e4, e5]; simp [nEntries, docSpans]
+      | step st =>
+        simp only [nSideOK] at hside
+        cases dm with
+        | components =>
+          simp only [List.map_cons, NBlock.y, yOKB, Bool.and_eq_true, beq_iff_eq, List.all_eq_true] at hok
+          obtain ⟨⟨hnew, hcomp⟩, hrest⟩ := hok
+          have hcb : CompBase base := ⟨hdm, by rw [hdup]; exact hnew⟩
+          have hco : ∀ it ∈ st, it.CompOK env := fun it hit =>
+            rtq_compOK env it (hside.1 it hit) (hcomp (it.x env) (List.mem_map_of_mem hit))
+          obtain ⟨l1, l2⟩ := rtq_loop_step_comps env input base hcb (r.flatMap NBlock.events) st before T hfit content n hco
+          obtain ⟨c, h1, h2⟩ := ih .components dup base hdm hdup hside.2 (before ++ st) _ l2 content n hrest
+          refine ⟨c, ?_, ?_⟩
+          · rw [List.flatMap_cons, NBlock.events, SBlock.events, l1, h1]
+          · obtain ⟨a1, a2, a3, a4, a5, a6, a7, a8, a9⟩ := h2
+            exact ⟨by rw [a1]; rfl, by rw [a2]; rfl, by rw [a3]; rfl, by rw [a4]; rfl, by rw [a5]; rfl,
+              by rw [a6]; rfl, by rw [a7]; rfl, a8, a9⟩
+        | text =>
+          simp only [List.map_cons, NBlock.y, yOKB, Bool.and_eq_true] at hok
+          obtain ⟨htxt, hrest⟩ := hok
+          have l1 := rtq_loop_step_text env input base hdm (r.flatMap NBlock.events) st before T content n htxt
+          obtain ⟨c, h1, h2⟩ := ih .text dup base hdm hdup hside.2 before T hfit _ n hrest
+          refine ⟨c, ?_, ?_⟩
+          · rw [List.flatMap_cons, NBlock.events, SBlock.events, l1, h1]
+          · obtain ⟨a1, a2, a3, a4, a5, a6, a7, a8, a9⟩ := h2
+            exact ⟨by rw [a1]; rfl, by rw [a2]; rfl, by rw [a3]; rfl, by rw [a4]; rfl, by rw [a5]; rfl,
+              by rw [a6]; rfl, by rw [a7]; rfl, a8, a9⟩
+        | all =>
+          simp only [List.map_cons, NBlock.y, yOKB, Bool.and_eq_true, Bool.not_eq_true', List.isEmpty_eq_false_iff] at hok
+          obtain ⟨⟨hs, hne⟩, hrest⟩ := hok
+          have hne' : st ≠ [] := by simpa using hne
+          obtain ⟨l1, l2⟩ := rtq_loop_step env input base (Or.inl hdm) (r.flatMap NBlock.events) st before T hfit
+            (by rw [hdm]; exact hside.1) content n (by rw [hdm, hdup]; exact hs) hne'
+          rw [hdm, hdup] at l1 l2
+          obtain ⟨c, h1, h2⟩ := ih .all dup base hdm hdup hside.2 (before ++ st) _ l2 _ (n + 1) hrest
+          refine ⟨c, ?_, ?_⟩
+          · rw [List.flatMap_cons, NBlock.events, SBlock.events, l1, h1]
+          · obtain ⟨a1, a2, a3, a4, a5, a6, a7, a8, a9⟩ := h2
+            exact ⟨by rw [a1]; rfl, by rw [a2]; rfl, by rw [a3]; rfl, by rw [a4]; rfl, by rw [a5]; rfl,
+              by rw [a6]; rfl, by rw [a7]; rfl, a8, a9⟩
+        | steps =>
+          simp only [List.map_cons, NBlock.y, yOKB, Bool.and_eq_true, Bool.not_eq_true', List.isEmpty_eq_false_iff] at hok
+          obtain ⟨⟨hs, hne⟩, hrest⟩ := hok
+          have hne' : st ≠ [] := by simpa using hne
+          obtain ⟨l1, l2⟩ := rtq_loop_step env input base (Or.inr hdm) (r.flatMap NBlock.events) st before T hfit
+            (by rw [hdm]; exact hside.1) content n (by rw [hdm, hdup]; exact hs) hne'
+          rw [hdm, hdup] at l1 l2
+          obtain ⟨c, h1, h2⟩ := ih .steps dup base hdm hdup hside.2 (before ++ st) _ l2 _ (n + 1) hrest
+          refine ⟨c, ?_, ?_⟩
+          · rw [List.flatMap_cons, NBlock.events, SBlock.events, l1, h1]
+          · obtain ⟨a1, a2, a3, a4, a5, a6, a7, a8, a9⟩ := h2
+            exact ⟨by rw [a1]; rfl, by rw [a2]; rfl, by rw [a3]; rfl, by rw [a4]; rfl, by rw [a5]; rfl,
+              by rw [a6]; rfl, by rw [a7]; rfl, a8, a9⟩
+
+/-- **analysis layer, documents with arbitrary mode switches** -/
+theorem rtq_parseEvents_doc (env : Env) (input : Str) (blocks : List (NBlock α)) (hside : nSideOK env .all blocks)
+    (hok : yOKB env .all .new {} [] ⟨none, []⟩ 1 (blocks.map (NBlock.y env)) = true) :
+    ∃ c : Col α, parseEvents env input (blocks.flatMap NBlock.events) = ⟨some c, c.diags, none⟩ ∧
+      c.sections = (yRun env .all .new {} [] ⟨none, []⟩ 1 [] (blocks.map (NBlock.y env))).secs ∧
+      c.ingredients = (yRun env .all .new {} [] ⟨none, []⟩ 1 [] (blocks.map (NBlock.y env))).T.ing ∧
+      c.cookware = (yRun env .all .new {} [] ⟨none, []⟩ 1 [] (blocks.map (NBlock.y env))).T.cw ∧
+      c.timers = (yRun env .all .new {} [] ⟨none, []⟩ 1 [] (blocks.map (NBlock.y env))).T.tm ∧
+      c.metaMap = (yRun env .all .new {} [] ⟨none, []⟩ 1 [] (blocks.map (NBlock.y env))).metaMap ∧
+      c.diags = deprecation (docSpans (nEntries blocks)) ∧
+      c.inlineQ = #[] ∧ c.frontMatter = none := by
+  have h0 : ({} : Col α) = stOfT {} [] {} [] 1 none := by simp [stOfT, ingrsOf, cwsOf]
+  obtain ⟨c, h1, h2⟩ := rtq_loop_doc env input blocks .all .new {} rfl rfl hside [] {} ⟨rfl, rfl⟩ [] 1 hok
+  refine ⟨c, ?_, h2.sections, h2.ingredients, h2.cookware, h2.timers, h2.metaMap, ?_, ?_, ?_⟩
+  · unfold parseEvents; rw [h0, h1]
+  · rw [h2.diags]; simp
+  · rw [h2.inlineQ]
+  · rw [h2.frontMatter]
+
 end Cook
